@@ -6,6 +6,7 @@ server handler's answer rule below.
 import AnyTLS.Model.Open
 import AnyTLS.Lemmas.Session
 import AnyTLS.Props.C02
+import AnyTLS.Props.C11
 
 namespace AnyTLS.C10
 open AnyTLS AnyTLS.Gen
@@ -231,5 +232,14 @@ theorem ok_only_after_connect (pv sid : Nat) (d : Dial) :
       · simp at hf; rw [hf] at hd; simp [asciiBytes] at hd
       · simp at hf
     · simp
+
+/-- T10.6 `answer_finds_pending_open` (interleaving model M13): the step that submits a stream's
+SYN registers the stream in both tables, so an answer that arrives at ANY later moment — also while
+the opener is still inside the SYN write — finds the pending open (and `first_outcome_wins` applies). -/
+theorem answer_finds_pending_open (cs cs' : CS) (t : Nat) (hpc : (cs.task t).pc = .openChecked) (hm : micro cs t = some cs') :
+    tblGet cs'.s.streams cs.s.nextSid = some cs.s.objs.length ∧ tblGet cs'.s.recv cs.s.nextSid = some cs.s.objs.length ∧
+    (cs'.task t).submitted = (cs.task t).submitted ++ [synBytes cs.s.nextSid] :=
+  let h := AnyTLS.C11.registered_before_syn cs cs' t hpc hm
+  ⟨h.1, h.2.1, h.2.2.2.1⟩
 
 end AnyTLS.C10
